@@ -852,6 +852,452 @@ theorem readNres_zero_spec (a : Ascii) (sq : Sq) (W : Nat) (hW : 1 ≤ W) (w : W
   obtain ⟨_, _, _, _, _, k6, k7, k8, k9⟩ := k
   exact ⟨d1, d2, d3, d4, d5, d6, keep_stat d7, k6, k8, k9, k7, fun h0 => d8 (by show nresOf a.inmap s.1 < W; omega)⟩
 
+/-! ## Stage C: general `nskip` (subsequence fetches) -/
+
+theorem splitRes_res (inmap : Bytes) (c : UInt8) (t : List UInt8) (n : Nat) (h0 : n ≠ 0) (hr : isRes inmap c = true) :
+    splitRes inmap (c :: t) n = (c :: (splitRes inmap t (n - 1)).1, (splitRes inmap t (n - 1)).2) := by
+  simp [splitRes, h0, hr]
+
+theorem splitRes_skip (inmap : Bytes) (c : UInt8) (t : List UInt8) (n : Nat) (h0 : n ≠ 0) (hr : isRes inmap c = false)
+    (hd : isData inmap c = true) : splitRes inmap (c :: t) n = (c :: (splitRes inmap t n).1, (splitRes inmap t n).2) := by
+  simp [splitRes, h0, hr, hd]
+
+theorem splitRes_stop (inmap : Bytes) (c : UInt8) (t : List UInt8) (n : Nat) (h0 : n ≠ 0) (hr : isRes inmap c = false)
+    (hd : isData inmap c = false) : splitRes inmap (c :: t) n = ([], c :: t) := by
+  simp [splitRes, h0, hr, hd]
+
+/-- taking `p + q` residues = taking `p`, then `q` more from what follows (if `p` could be had at all) -/
+theorem splitRes_add (inmap : Bytes) (l : List UInt8) : ∀ p q, splitRes inmap l (p + q) =
+    if nresOf inmap (splitRes inmap l p).1 = p then
+      ((splitRes inmap l p).1 ++ (splitRes inmap (splitRes inmap l p).2 q).1, (splitRes inmap (splitRes inmap l p).2 q).2)
+    else splitRes inmap l p := by
+  induction l with
+  | nil =>
+    intro p q
+    by_cases hp : 0 = p <;> simp [splitRes, nresOf, hp]
+  | cons c t ih =>
+    intro p q
+    by_cases hp : p = 0
+    · subst hp; simp [splitRes_zero, nresOf]
+    · have hpq0 : p + q ≠ 0 := by omega
+      rcases splitRes_cons inmap c t p with ⟨k, _⟩ | ⟨_, hr, hd, e⟩ | ⟨_, hr, hd, e⟩ | ⟨_, hr, hd, e⟩
+      · exact absurd k hp
+      · have e' : splitRes inmap (c :: t) (p + q) =
+            (c :: (splitRes inmap t (p + q - 1)).1, (splitRes inmap t (p + q - 1)).2) :=
+          splitRes_res inmap c t (p + q) hpq0 hr
+        have hpq : p + q - 1 = (p - 1) + q := by omega
+        rw [e', e, hpq, ih (p - 1) q]
+        simp only [nresOf_cons, hr, if_true]
+        have hiff : (1 + nresOf inmap (splitRes inmap t (p - 1)).1 = p) = (nresOf inmap (splitRes inmap t (p - 1)).1 = p - 1) :=
+          propext ⟨by omega, by omega⟩
+        simp only [hiff]
+        by_cases hc : nresOf inmap (splitRes inmap t (p - 1)).1 = p - 1
+        · simp only [hc, if_true, List.cons_append]
+        · simp only [hc, if_false]
+      · have e' : splitRes inmap (c :: t) (p + q) = (c :: (splitRes inmap t (p + q)).1, (splitRes inmap t (p + q)).2) :=
+          splitRes_skip inmap c t (p + q) hpq0 hr hd
+        rw [e', e, ih p q]
+        simp only [nresOf_cons, hr, Bool.false_eq_true, if_false, Nat.zero_add]
+        by_cases hc : nresOf inmap (splitRes inmap t p).1 = p
+        · simp only [hc, if_true, List.cons_append]
+        · simp only [hc, if_false]
+      · have e' : splitRes inmap (c :: t) (p + q) = ([], c :: t) := splitRes_stop inmap c t (p + q) hpq0 hr hd
+        rw [e', e]
+        have : ¬ (nresOf inmap ([] : List UInt8) = p) := by simp only [nresOf_nil]; omega
+        simp only [this, if_false]
+
+theorem splitRes_add_of_le (inmap : Bytes) (l : List UInt8) (p q : Nat) (h : p ≤ nresOf inmap (splitRes inmap l (p + q)).1) :
+    nresOf inmap (splitRes inmap l p).1 = p ∧
+    splitRes inmap l (p + q) =
+      ((splitRes inmap l p).1 ++ (splitRes inmap (splitRes inmap l p).2 q).1, (splitRes inmap (splitRes inmap l p).2 q).2) := by
+  have hadd := splitRes_add inmap l p q
+  have hle := splitRes_nres_le inmap l p
+  by_cases hc : nresOf inmap (splitRes inmap l p).1 = p
+  · simp only [hc, if_true] at hadd
+    exact ⟨hc, hadd⟩
+  · simp only [hc, if_false] at hadd
+    rw [hadd] at h
+    omega
+
+theorem splitRes_all_data (inmap : Bytes) (l : List UInt8) : ∀ n, (∀ c ∈ l, isData inmap c = true) → nresOf inmap l < n →
+    splitRes inmap l n = (l, []) := by
+  induction l with
+  | nil => intro n _ _; rfl
+  | cons c t ih =>
+    intro n hd hn
+    have hdc : isData inmap c = true := hd c (by simp)
+    have hdt : ∀ x ∈ t, isData inmap x = true := fun x hx => hd x (by simp [hx])
+    rw [nresOf_cons] at hn
+    rcases splitRes_cons inmap c t n with ⟨k, _⟩ | ⟨_, hr, _, e⟩ | ⟨_, hr, _, e⟩ | ⟨_, _, hd', _⟩
+    · omega
+    · rw [hr] at hn; simp only [if_true] at hn
+      rw [e, ih (n - 1) hdt (by omega)]
+    · rw [hr] at hn; simp only [Bool.false_eq_true, if_false, Nat.zero_add] at hn
+      rw [e, ih n hdt hn]
+    · rw [hdc] at hd'; cases hd'
+
+theorem Clean_of_data_append (inmap : Bytes) (d rest : List UInt8) (hd : ∀ c ∈ d, isData inmap c = true)
+    (h : Clean inmap (d ++ rest)) : Clean inmap rest := by
+  intro c t hc
+  apply h c t
+  induction d with
+  | nil => exact hc
+  | cons x d ih =>
+    have hx : isData inmap x = true := hd x (by simp)
+    rw [List.cons_append, List.dropWhile_cons_of_pos hx]
+    exact ih (fun y hy => hd y (by simp [hy])) (fun c t e => h c t (by rw [List.cons_append, List.dropWhile_cons_of_pos hx]; exact e))
+
+/-- `skipbuf` of `n` residues that are there stops right behind the `n`-th -/
+theorem skipbufLoop_exact (a : Ascii) (hr : NoFault.Rd a) (hm : a.inmap.size = 128) :
+    ∀ (l : List UInt8) (bpos n : Nat), bufList a bpos = l → nresOf a.inmap (splitRes a.inmap l n).1 = n →
+      skipbufLoop a n bpos = (.ok, bpos + (splitRes a.inmap l n).1.length) := by
+  have hmap := MapOk.self a.inmap hm
+  intro l
+  induction l with
+  | nil =>
+    intro bpos n _ hn
+    have : n = 0 := by simpa [splitRes, nresOf] using hn.symm
+    subst this
+    rw [skipbufLoop]
+    simp [splitRes]
+  | cons c t ih =>
+    intro bpos n hl hn
+    by_cases h0 : n = 0
+    · subst h0
+      rw [skipbufLoop]
+      simp [splitRes_zero]
+    · have hlt : bpos < a.nc := by
+        by_cases k : bpos < a.nc
+        · exact k
+        · rw [bufList_nil a bpos k] at hl; cases hl
+      rw [bufList_cons a bpos hlt] at hl
+      obtain ⟨x, hx⟩ := hr bpos hlt
+      have hbx : byteAt a bpos = x := by simp [byteAt, hx]
+      rw [hbx] at hl
+      have hxc : x = c := (List.cons.inj hl).1
+      have ht : bufList a (bpos + 1) = t := (List.cons.inj hl).2
+      subst hxc
+      have hz : (n == 0) = false := by simpa using h0
+      rw [skipbufLoop]
+      simp only [hz, Bool.false_eq_true, if_false, hlt, dite_true, hx]
+      rcases splitRes_cons a.inmap x t n with ⟨k0, _⟩ | ⟨_, hres, hd, e⟩ | ⟨_, hres, hd, e⟩ | ⟨_, _, _, e⟩
+      · exact absurd k0 h0
+      · obtain ⟨y, hy, hyr⟩ := hmap x hd
+        have hy127 : y ≤ 127 := by rw [hres] at hyr; simpa using hyr
+        rw [e] at hn ⊢
+        simp only [nresOf_cons, hres, if_true] at hn
+        simp only [hy, hy127, if_true]
+        rw [ih (bpos + 1) (n - 1) ht (by omega)]
+        simp only [List.length_cons, Prod.mk.injEq, true_and]
+        omega
+      · obtain ⟨y, hy, hyr⟩ := hmap x hd
+        have hy127 : ¬ y ≤ 127 := by rw [hres] at hyr; simpa using hyr
+        rw [e] at hn ⊢
+        simp only [nresOf_cons, hres, Bool.false_eq_true, if_false, Nat.zero_add] at hn
+        simp only [hy, hy127, if_false]
+        rw [ih (bpos + 1) n ht hn]
+        simp only [List.length_cons, Prod.mk.injEq, true_and]
+        omega
+      · rw [e] at hn
+        simp only [nresOf_nil] at hn
+        exact absurd hn.symm h0
+
+theorem skipbuf_exact (a : Ascii) (n : Nat) (w : WF a) (hm : a.inmap.size = 128)
+    (hn : nresOf a.inmap (splitRes a.inmap (curBuf a) n).1 = n) :
+    skipbuf a n = ({ a with bpos := a.bpos + (splitRes a.inmap (curBuf a) n).1.length }, .ok) := by
+  unfold skipbuf
+  rw [skipbufLoop_exact a (NoFault.WF.rd w) hm (curBuf a) a.bpos n (bufList_cur a w) hn]
+
+theorem curBuf_bpos (a : Ascii) (w : WF a) (k : Nat) :
+    curBuf { a with bpos := a.bpos + k } = (curBuf a).drop k := by
+  unfold curBuf
+  rw [fileFrom_bpos a w k, List.drop_take]
+  show List.take (a.nc - (a.bpos + k)) _ = _
+  congr 1
+  omega
+
+theorem nresSkipLoop_succ (fuel : Nat) (a : Ascii) (nskip nres : Nat) (see : See) :
+    nresSkipLoop (fuel + 1) a nskip nres see =
+      if (see.st == .ok && nskip > see.nres) = true then
+        (if ((loadbuf a).2 == .eof) = true then ((loadbuf a).1, nskip - see.nres, see, Status.eof)
+         else nresSkipLoop fuel (seebuf (loadbuf a).1 (some (nskip - see.nres + nres))).1 (nskip - see.nres) nres
+           (seebuf (loadbuf a).1 (some (nskip - see.nres + nres))).2)
+      else (a, nskip, see, see.st) := by
+  rw [nresSkipLoop]
+
+/-- **the first loop of `read_nres`**: whole buffers are skipped while they hold fewer residues than are still to be skipped; what
+    remains to be done afterwards (`splitRes … nskip` of the rest of the file) is unchanged -/
+theorem skipLoop_spec (nres : Nat) (fuel : Nat) : ∀ (a : Ascii) (nskip : Nat) (see : See),
+    Seen a (nskip + nres) see.nres see.endpos see.st → Clean a.inmap (fileFrom a) →
+    nskip < nresOf a.inmap (splitRes a.inmap (fileFrom a) (nskip + nres)).1 →
+    (fileFrom a).length + (if a.bpos < a.nc then 0 else 1) < fuel →
+    ∃ a' nskip' see', nresSkipLoop fuel a nskip nres see = (a', nskip', see', see'.st) ∧
+      Seen a' (nskip' + nres) see'.nres see'.endpos see'.st ∧ nskip' ≤ see'.nres ∧ (see'.st = .ok ∨ see'.st = .eod) ∧
+      keep a' = keep a ∧ Clean a'.inmap (fileFrom a') ∧
+      (splitRes a.inmap (fileFrom a) nskip).2 = (splitRes a.inmap (fileFrom a') nskip').2 := by
+  induction fuel with
+  | zero => intro a nskip see _ _ _ hf; omega
+  | succ fuel ih =>
+    intro a nskip see hS hclean hskip hfuel
+    have w := hS.wf
+    have hsplit := fileFrom_split a
+    have hcl := curBuf_length a w
+    rw [nresSkipLoop_succ]
+    have hcases := split_cases a.inmap (curBuf a) ((fileFrom a).drop (a.nc - a.bpos)) (nskip + nres) (by rw [← hsplit]; exact hclean)
+    rw [← hsplit] at hcases
+    by_cases hc : see.st = .ok ∧ nskip > see.nres
+    · have hcond : (see.st == .ok && decide (nskip > see.nres)) = true := by simp [hc.1, hc.2]
+      simp only [hcond, if_true]
+      rcases hcases with ⟨c1, _, _⟩ | ⟨c1, c2, c3, c4, c5, c6⟩ | ⟨_, _, c3, _⟩
+      · have := hS.n_eq; omega
+      · have hn : see.nres = nresOf a.inmap (curBuf a) := by rw [hS.n_eq, c3]
+        rw [c6] at hskip
+        simp only [nresOf_append] at hskip
+        have hdata : ∀ x ∈ curBuf a, isData a.inmap x = true := by
+          intro x hx
+          have := splitRes_data a.inmap (curBuf a) (nskip + nres) x
+          rw [c3] at this; exact this hx
+        have hM : nskip + nres - nresOf a.inmap (curBuf a) = nskip - see.nres + nres := by omega
+        rw [hM] at c6 hskip
+        obtain ⟨l1, l2, l3, l4, l5, l6⟩ := loadbuf_next a a w rfl
+        rcases l6 with ⟨o1, o2, o3⟩ | ⟨o1, o2, o3, o4⟩
+        · have e2 : ((loadbuf a).2 == Status.eof) = false := by rw [o1]; decide
+          simp only [e2, Bool.false_eq_true, if_false]
+          have hi2 : (loadbuf a).1.inmap = a.inmap := keep_inmap l4
+          have htok2 : Track.Ok (loadbuf a).1.trk := by rw [l5]; exact hS.tok
+          obtain ⟨q1, q2, q3, q4, q5⟩ := seen_seebuf (loadbuf a).1 l1 htok2 (by rw [hi2]; exact hS.hm) (nskip - see.nres + nres)
+            (by rw [hi2, l3]; exact c5)
+          have hk3 := q3.trans l4
+          have hi3 := keep_inmap hk3
+          have hff3 := q2.trans l3
+          have hlenF : (fileFrom a).length = (a.nc - a.bpos) + ((fileFrom a).drop (a.nc - a.bpos)).length := by
+            have := congrArg List.length hsplit
+            rw [List.length_append, hcl] at this; exact this
+          obtain ⟨a', nskip', see', r1, r2, r3, r4, r5, r6, r7⟩ := ih _ (nskip - see.nres) _ q1 (by rw [hi3, hff3]; exact c5)
+            (by rw [hi3, hff3]; omega)
+            (by
+              rw [hff3, q4, q5, l2]
+              simp only [o2, if_true]
+              by_cases hb : a.bpos < a.nc
+              · simp only [hb, if_true] at hfuel; omega
+              · simp only [hb, if_false] at hfuel; omega)
+          refine ⟨a', nskip', see', r1, r2, r3, r4, r5.trans hk3, r6, ?_⟩
+          rw [hi3, hff3] at r7
+          rw [← r7]
+          conv => lhs; rw [hsplit]
+          rw [splitRes_append, splitRes_all_data a.inmap (curBuf a) nskip hdata (by omega)]
+          have : nresOf a.inmap (curBuf a) < nskip ∧ ([] : List UInt8) = [] := ⟨by omega, rfl⟩
+          simp only [this, and_self, if_true, hn]
+        · exfalso
+          rw [o3] at hskip
+          simp only [splitRes_nil, nresOf_nil] at hskip
+          omega
+      · rw [hS.st_eq, c3] at hc; cases hc.1
+    · have hcond : (see.st == .ok && decide (nskip > see.nres)) = false := by
+        by_cases h1 : see.st = .ok
+        · have : ¬ nskip > see.nres := fun h2 => hc ⟨h1, h2⟩
+          simp [h1, this]
+        · have : (see.st == Status.ok) = false := by simpa using h1
+          simp [this]
+      simp only [hcond, Bool.false_eq_true, if_false]
+      refine ⟨a, nskip, see, rfl, hS, ?_, ?_, rfl, hclean, rfl⟩
+      · rcases hcases with ⟨c1, _, _⟩ | ⟨_, _, _, c4, _, _⟩ | ⟨_, _, _, c4⟩
+        · have := hS.n_eq; omega
+        · have hst : see.st = .ok := hS.st_eq.trans c4
+          have : ¬ nskip > see.nres := fun h2 => hc ⟨hst, h2⟩
+          omega
+        · rw [c4] at hskip
+          have hskip' : nskip < nresOf a.inmap (splitRes a.inmap (curBuf a) (nskip + nres)).1 := hskip
+          have := hS.n_eq; omega
+      · rcases hcases with ⟨_, c2, _⟩ | ⟨_, _, _, c4, _, _⟩ | ⟨_, _, c3, _⟩
+        · exact Or.inl (hS.st_eq.trans c2)
+        · exact Or.inl (hS.st_eq.trans c4)
+        · exact Or.inr (hS.st_eq.trans c3)
+
+theorem drop_of_append_eq {l x y : List UInt8} (h : x ++ y = l) : l.drop x.length = y := by
+  subst h; exact List.drop_left
+
+theorem Done.out {a0 : Ascii} {sq : Sq} {m act : Nat} {r : Ascii × Sq × Status × Nat} (d : Done a0 sq m act r)
+    (inmap map : Bytes) (l : List UInt8) (kp : Bytes × Bytes × Bool × Nat × Nat × Int × Bool × Int × Int)
+    (h1 : a0.inmap = inmap) (h2 : mapOf a0 sq = map) (h3 : fileFrom a0 = l) (h4 : keep a0 = kp) :
+    r.2.1 = { sq with seq := sq.seq ++ resOf inmap map (splitRes inmap l m).1 } ∧
+    r.2.2.2 = act + nresOf inmap (splitRes inmap l m).1 ∧
+    r.2.2.1 = (if act + nresOf inmap (splitRes inmap l m).1 = 0 then .eod else .ok) ∧
+    WF r.1 ∧ Track.Ok r.1.trk ∧ fileFrom r.1 = (splitRes inmap l m).2 ∧ keep r.1 = kp ∧
+    (nresOf inmap (splitRes inmap l m).1 < m → Sim.Live r.1 ∨ (Sim.AtEof r.1 ∧ pos r.1 = (r.1.file.size : Int))) := by
+  subst h1 h2 h3 h4
+  exact ⟨d.sq_eq, d.act, d.st, d.wf, d.tok, d.ff, d.kp, d.cur⟩
+
+theorem readNres_eq (a : Ascii) (sq : Sq) (nskip nres : Nat) (a' : Ascii) (nskip' : Nat) (see' : See) (a'' : Ascii)
+    (h1 : nresSkipLoop (fuelOf (seebuf a (some (nskip + nres))).1) (seebuf a (some (nskip + nres))).1 nskip nres
+      (seebuf a (some (nskip + nres))).2 = (a', nskip', see', see'.st))
+    (hst : see'.st = .ok ∨ see'.st = .eod) (hle : nskip' ≤ see'.nres) (h2 : skipbuf a' nskip' = (a'', .ok)) :
+    readNres a sq nskip nres = finishT (nresAddLoop (fuelOf a'') a'' sq nres (see'.nres - nskip') 0 see'.endpos see'.st) := by
+  unfold readNres
+  generalize seebuf a (some (nskip + nres)) = sb at h1 ⊢
+  obtain ⟨a1, see⟩ := sb
+  simp only at h1 ⊢
+  rw [h1]
+  have e1 : (Status.ok == Status.fault) = false := by decide
+  have e2 : (Status.ok == Status.eof) = false := by decide
+  have e3 : (Status.ok == Status.eod) = false := by decide
+  have e4 : (Status.ok != Status.ok) = false := by decide
+  have e5 : (Status.eod == Status.fault) = false := by decide
+  have e6 : (Status.eod == Status.eof) = false := by decide
+  have hlt : ¬ see'.nres < nskip' := by omega
+  rcases hst with h | h
+  · simp only [h, e1, e2, e3, e4, Bool.false_eq_true, if_false, h2]
+    generalize nresAddLoop (fuelOf a'') a'' sq nres (see'.nres - nskip') 0 see'.endpos Status.ok = r
+    obtain ⟨x1, x2, x3, x4, x5, x6, x7⟩ := r
+    simp only [finishT, finish]
+  · simp only [h, e1, e5, e6, Bool.false_eq_true, if_false, beq_self_eq_true, if_true, hlt, h2]
+    generalize nresAddLoop (fuelOf a'') a'' sq nres (see'.nres - nskip') 0 see'.endpos Status.eod = r
+    obtain ⟨x1, x2, x3, x4, x5, x6, x7⟩ := r
+    simp only [finishT, finish]
+
+/-- **`read_nres(sqfp, sq, nskip, nres, &actual)` in closed form, for every block size**: on clean data on which more than `nskip`
+    residues are to be had, it skips the shortest prefix `k` of the remaining file bytes that holds `nskip` residues, appends the
+    residues of the shortest prefix `s.1` of what follows that holds `nres` residues (all the data bytes left if there are fewer),
+    reports their number with `eslOK`, and leaves the cursor on the first byte not consumed. -/
+theorem readNres_skip_spec (a : Ascii) (sq : Sq) (nskip nres : Nat) (w : WF a) (tok : Track.Ok a.trk) (hm : a.inmap.size = 128)
+    (heof : a.eofIsOk = true) (hmap : MapOk a.inmap (mapOf a sq)) (hclean : Clean a.inmap (fileFrom a))
+    (hcap : sq.seq.size + nres + (if sq.digital then 2 else 1) ≤ sq.salloc)
+    (hskip : nskip < nresOf a.inmap (splitRes a.inmap (fileFrom a) (nskip + nres)).1) :
+    (readNres a sq nskip nres).2.1 =
+      { sq with seq := sq.seq ++ resOf a.inmap (mapOf a sq) (splitRes a.inmap (splitRes a.inmap (fileFrom a) nskip).2 nres).1 } ∧
+    (readNres a sq nskip nres).2.2.2 = nresOf a.inmap (splitRes a.inmap (splitRes a.inmap (fileFrom a) nskip).2 nres).1 ∧
+    (readNres a sq nskip nres).2.2.1 = .ok ∧
+    WF (readNres a sq nskip nres).1 ∧ Track.Ok (readNres a sq nskip nres).1.trk ∧
+    fileFrom (readNres a sq nskip nres).1 = (splitRes a.inmap (splitRes a.inmap (fileFrom a) nskip).2 nres).2 ∧
+    keep (readNres a sq nskip nres).1 = keep a ∧
+    (nresOf a.inmap (splitRes a.inmap (splitRes a.inmap (fileFrom a) nskip).2 nres).1 < nres →
+      Sim.Live (readNres a sq nskip nres).1 ∨
+      (Sim.AtEof (readNres a sq nskip nres).1 ∧ pos (readNres a sq nskip nres).1 = ((readNres a sq nskip nres).1.file.size : Int))) := by
+  obtain ⟨q1, q2, q3, q4, q5⟩ := seen_seebuf a w tok hm (nskip + nres) hclean
+  have hi := keep_inmap q3
+  have hlen1 := (fileFrom_length _ q1.wf).1
+  obtain ⟨a', nskip', see', r1, r2, r3, r4, r5, r6, r7⟩ := skipLoop_spec nres (fuelOf (seebuf a (some (nskip + nres))).1)
+    (seebuf a (some (nskip + nres))).1 nskip (seebuf a (some (nskip + nres))).2 q1 (by rw [hi, q2]; exact hclean)
+    (by rw [hi, q2]; exact hskip)
+    (by show _ < (seebuf a (some (nskip + nres))).1.file.size + 2; split <;> omega)
+  rw [hi, q2] at r7
+  have hk' := r5.trans q3
+  have hi' := keep_inmap hk'
+  have w' := r2.wf
+  have hbl' := w'.bposLe
+  have hcl' := curBuf_length a' w'
+  have hsplit' := fileFrom_split a'
+  obtain ⟨hK, hAdd⟩ := splitRes_add_of_le a'.inmap (curBuf a') nskip' nres (by rw [← r2.n_eq]; exact r3)
+  have happK := splitRes_append_eq a'.inmap (curBuf a') nskip'
+  have hlenK : (splitRes a'.inmap (curBuf a') nskip').1.length + (splitRes a'.inmap (curBuf a') nskip').2.length = a'.nc - a'.bpos := by
+    rw [← hcl', ← List.length_append, happK]
+  have hskipbuf := skipbuf_exact a' nskip' w' r2.hm hK
+  rw [readNres_eq a sq nskip nres a' nskip' see' _ r1 r4 r3 hskipbuf]
+  -- the handle after `skipbuf`
+  have w'' : WF { a' with bpos := a'.bpos + (splitRes a'.inmap (curBuf a') nskip').1.length } :=
+    WF_of_blk (a := a') rfl w' (by show a'.bpos + _ ≤ a'.nc; omega)
+  have hcb'' : curBuf { a' with bpos := a'.bpos + (splitRes a'.inmap (curBuf a') nskip').1.length } =
+      (splitRes a'.inmap (curBuf a') nskip').2 := by
+    rw [curBuf_bpos a' w']
+    exact drop_of_append_eq happK
+  have hfile' : fileFrom a' = (splitRes a'.inmap (curBuf a') nskip').1 ++
+      ((splitRes a'.inmap (curBuf a') nskip').2 ++ (fileFrom a').drop (a'.nc - a'.bpos)) := by
+    rw [← List.append_assoc, happK]; exact hsplit'
+  have hff'' : fileFrom { a' with bpos := a'.bpos + (splitRes a'.inmap (curBuf a') nskip').1.length } =
+      (splitRes a'.inmap (curBuf a') nskip').2 ++ (fileFrom a').drop (a'.nc - a'.bpos) := by
+    rw [fileFrom_bpos a' w']
+    exact drop_of_append_eq hfile'.symm
+  have hafter : (splitRes a.inmap (fileFrom a) nskip).2 =
+      (splitRes a'.inmap (curBuf a') nskip').2 ++ (fileFrom a').drop (a'.nc - a'.bpos) := by
+    rw [r7, ← hi']
+    conv => lhs; rw [hsplit']
+    rw [splitRes_append]
+    have : ¬ (nresOf a'.inmap (splitRes a'.inmap (curBuf a') nskip').1 < nskip' ∧ (splitRes a'.inmap (curBuf a') nskip').2 = []) := by
+      intro k; omega
+    simp only [this, if_false]
+  have hnresAdd : nresOf a'.inmap (splitRes a'.inmap (curBuf a') (nskip' + nres)).1 =
+      nskip' + nresOf a'.inmap (splitRes a'.inmap (splitRes a'.inmap (curBuf a') nskip').2 nres).1 := by
+    rw [hAdd]; simp only [nresOf_append, hK]
+  have hseen : Seen { a' with bpos := a'.bpos + (splitRes a'.inmap (curBuf a') nskip').1.length } nres (see'.nres - nskip')
+      see'.endpos see'.st := by
+    refine ⟨w'', r2.tok, r2.hm, ?_, ?_, ?_⟩
+    · rw [hcb'']
+      show see'.nres - nskip' = nresOf a'.inmap (splitRes a'.inmap (splitRes a'.inmap (curBuf a') nskip').2 nres).1
+      rw [r2.n_eq, hnresAdd]; omega
+    · rw [hcb'']
+      show see'.endpos = a'.bpos + (splitRes a'.inmap (curBuf a') nskip').1.length +
+        (splitRes a'.inmap (splitRes a'.inmap (curBuf a') nskip').2 nres).1.length
+      rw [r2.epos_eq, hAdd]; simp only [List.length_append]; omega
+    · rw [hcb'']
+      show see'.st = splitSt a'.inmap (splitRes a'.inmap (curBuf a') nskip').2 nres
+      rw [r2.st_eq]
+      unfold splitSt
+      rw [hnresAdd, hAdd]
+      have hiff : (nskip' + nresOf a'.inmap (splitRes a'.inmap (splitRes a'.inmap (curBuf a') nskip').2 nres).1 = nskip' + nres) =
+          (nresOf a'.inmap (splitRes a'.inmap (splitRes a'.inmap (curBuf a') nskip').2 nres).1 = nres) := propext ⟨by omega, by omega⟩
+      simp only [hiff]
+  have hclean'' : Clean a'.inmap (fileFrom { a' with bpos := a'.bpos + (splitRes a'.inmap (curBuf a') nskip').1.length }) := by
+    rw [hff'']
+    apply Clean_of_data_append a'.inmap (splitRes a'.inmap (curBuf a') nskip').1 _ (splitRes_data a'.inmap (curBuf a') nskip')
+    rw [← hfile']; exact r6
+  have hlen'' := (fileFrom_length _ w'').1
+  have key := addLoop_spec (fuelOf { a' with bpos := a'.bpos + (splitRes a'.inmap (curBuf a') nskip').1.length })
+    { a' with bpos := a'.bpos + (splitRes a'.inmap (curBuf a') nskip').1.length } sq nres _ 0 _ _ hseen
+    (by show MapOk a'.inmap (mapOf a' sq)
+        have : mapOf a' sq = mapOf a sq := by simp only [mapOf, hi']
+        rw [this, hi']; exact hmap)
+    (by show a'.eofIsOk = true; rw [keep_eofIsOk hk']; exact heof) hclean'' hcap
+    (by show _ < a'.file.size + 2
+        have : ({ a' with bpos := a'.bpos + (splitRes a'.inmap (curBuf a') nskip').1.length } : Ascii).file = a'.file := rfl
+        rw [this] at hlen''
+        split <;> omega)
+  have hmap'' : mapOf { a' with bpos := a'.bpos + (splitRes a'.inmap (curBuf a') nskip').1.length } sq = mapOf a sq := by
+    simp only [mapOf, hi']
+  obtain ⟨d1, d2, d3, d4, d5, d6, d7, d8⟩ := key.out a.inmap (mapOf a sq) (splitRes a.inmap (fileFrom a) nskip).2 (keep a)
+    hi' hmap'' (hff''.trans hafter.symm) hk'
+  simp only [Nat.zero_add] at d2 d3
+  have hpos : 0 < nresOf a.inmap (splitRes a.inmap (splitRes a.inmap (fileFrom a) nskip).2 nres).1 := by
+    obtain ⟨g1, g2⟩ := splitRes_add_of_le a.inmap (fileFrom a) nskip nres (by omega)
+    rw [g2] at hskip
+    simp only [nresOf_append, g1] at hskip
+    omega
+  have hne : ¬ (nresOf a.inmap (splitRes a.inmap (splitRes a.inmap (fileFrom a) nskip).2 nres).1 = 0) := by omega
+  simp only [hne, if_false] at d3
+  exact ⟨d1, d2, d3, d4, d5, d6, d7, d8⟩
+
+/-- the same, stated on the one split `s := splitRes inmap (fileFrom a) (nskip + nres)`: the residues `nskip .. ` of `s.1` -/
+theorem readNres_spec (a : Ascii) (sq : Sq) (nskip nres : Nat) (w : WF a) (tok : Track.Ok a.trk) (hm : a.inmap.size = 128)
+    (heof : a.eofIsOk = true) (hmap : MapOk a.inmap (mapOf a sq)) (hclean : Clean a.inmap (fileFrom a))
+    (hcap : sq.seq.size + nres + (if sq.digital then 2 else 1) ≤ sq.salloc)
+    (hskip : nskip < nresOf a.inmap (splitRes a.inmap (fileFrom a) (nskip + nres)).1) :
+    let s := splitRes a.inmap (fileFrom a) (nskip + nres)
+    let r := readNres a sq nskip nres
+    r.2.2.1 = .ok ∧ r.2.2.2 = nresOf a.inmap s.1 - nskip ∧
+    r.2.1 = { sq with seq := sq.seq ++ (resOf a.inmap (mapOf a sq) s.1).extract nskip (nresOf a.inmap s.1) } ∧
+    WF r.1 ∧ Track.Ok r.1.trk ∧ fileFrom r.1 = s.2 ∧ stat r.1 = stat a ∧ r.1.L = a.L ∧
+    r.1.bookmarkOff = a.bookmarkOff ∧ r.1.bookmarkLine = a.bookmarkLine ∧ r.1.exc = a.exc := by
+  intro s r
+  obtain ⟨d1, d2, d3, d4, d5, d6, d7, _⟩ := readNres_skip_spec a sq nskip nres w tok hm heof hmap hclean hcap hskip
+  obtain ⟨g1, g2⟩ := splitRes_add_of_le a.inmap (fileFrom a) nskip nres (by omega)
+  have hs : s = ((splitRes a.inmap (fileFrom a) nskip).1 ++ (splitRes a.inmap (splitRes a.inmap (fileFrom a) nskip).2 nres).1,
+      (splitRes a.inmap (splitRes a.inmap (fileFrom a) nskip).2 nres).2) := g2
+  have k := d7
+  simp only [keep, Prod.mk.injEq] at k
+  obtain ⟨_, _, _, _, _, k6, k7, k8, k9⟩ := k
+  have hsz : (resOf a.inmap (mapOf a sq) (splitRes a.inmap (fileFrom a) nskip).1).size = nskip := by
+    rw [resOf_size]; exact g1
+  have hsz2 : (resOf a.inmap (mapOf a sq) (splitRes a.inmap (splitRes a.inmap (fileFrom a) nskip).2 nres).1).size =
+      nresOf a.inmap (splitRes a.inmap (splitRes a.inmap (fileFrom a) nskip).2 nres).1 := resOf_size _ _ _
+  refine ⟨d3, ?_, ?_, d4, d5, ?_, keep_stat d7, k6, k8, k9, k7⟩
+  · rw [hs]; simp only [nresOf_append, g1]; rw [d2]; omega
+  · rw [hs]; simp only [nresOf_append, g1, resOf_append]
+    rw [d1]
+    congr 2
+    rw [Array.extract_append, hsz]
+    simp [← hsz2]
+    omega
+  · rw [hs]; exact d6
+
 /-! ## non-vacuity: the data `AC\nGT\n>b\n` read through 2-byte blocks, three residues at a time -/
 
 def demoData : Bytes := #[65, 67, 10, 71, 84, 10, 62, 98, 10]
@@ -878,5 +1324,11 @@ example : (readNres (ParseFasta.openFasta demoData 2 0) {} 0 3).2.2.2 =
     (by show MapOk _ (ParseFasta.openFasta demoData 2 0).inmap; exact MapOk.self _ R.hm) hclean (by decide)).2.1
   rw [hi, hff] at key
   exact key
+
+example : ((readNres (ParseFasta.openFasta demoData 2 0) {} 1 3).2.1.seq, (readNres (ParseFasta.openFasta demoData 2 0) {} 1 3).2.2) =
+    (#[67, 71, 84], Status.ok, 3) := by decide +kernel
+
+/-- the extra hypothesis of `readNres_skip_spec` / `readNres_spec` on that handle: skipping 1 residue, 4 are to be had -/
+example : 1 < nresOf (inmapFasta 0) (splitRes (inmapFasta 0) demoData.toList (1 + 3)).1 := by decide +kernel
 
 end EaselModel.Sqio.WindowSpec
